@@ -393,7 +393,7 @@ def expected_alternatives(meta, g):
     # de-duplicate
     uniq = []
     for tag, s in out:
-        key = 'plain' if s == 'plain' else (tuple(bparams(s)), repr(sorted((k, sorted(map(repr, v))) for k, v in src_as_sets(s)[0].items())),
+        key = 'plain' if isinstance(s, str) else (tuple(bparams(s)), repr(sorted((k, sorted(map(repr, v))) for k, v in src_as_sets(s)[0].items())),
                                              repr(sorted(map(repr, src_as_sets(s)[1].items()))))
         if key not in [u[0] for u in uniq]:
             uniq.append((key, tag, s))
@@ -478,7 +478,7 @@ def sig_key(s, by_name=False):
 
 def matches(S, alt, meta, g, plain):
     """Does the discovered signature S equal the alternative?"""
-    if alt == 'plain':
+    if isinstance(alt, str):
         return sig_key(S) == sig_key(plain)
     if meta['route'] == 'param_partial':
         try:
@@ -570,8 +570,8 @@ def check_program(ctx, case_seed, want=('C05', 'C06', 'C07'), force=None, varian
                 ctx.violation('C06', 'AutoBoundary', 'discovery-differs-from-declaration@' + meta['route'],
                               'the discovered signature differs from the explicit declaration of the forwarding actually written',
                               dict(w, discovered=show(S), discovered_sources=sources_view(S),
-                                   declared=[(tag, show(a) if a != 'plain' else 'plain: ' + show(plain)) for tag, a in alts][:4],
-                                   declared_sources=[sources_view(a) for tag, a in alts if a != 'plain'][:2]), rp)
+                                   declared=[(tag, show(a) if not isinstance(a, str) else 'plain: ' + show(plain)) for tag, a in alts][:4],
+                                   declared_sources=[sources_view(a) for tag, a in alts if not isinstance(a, str)][:2]), rp)
         # metamorphic variants
         rnd = random.Random(case_seed ^ 0x5bd1e995)
         for v in range(variants):
